@@ -468,7 +468,7 @@ def jobs_for(prop, tier):
 
 def _jobs_for(prop, tier):
     if prop == 'C01':
-        return jobs_c01(tier) + jobs_carry(tier) + jobs_numpy_getitem(tier) + jobs_option_getitem(tier) + jobs_ellipsis(tier) + jobs_missing(tier) + jobs_advanced(tier) + jobs_getitem_entry(tier) + jobs_union_getitem_advanced(tier) + jobs_union_ops(tier)
+        return jobs_c01(tier) + jobs_carry(tier) + jobs_numpy_getitem(tier) + jobs_option_getitem(tier) + jobs_ellipsis(tier) + jobs_missing(tier) + jobs_advanced(tier) + jobs_getitem_entry(tier) + jobs_union_getitem_advanced(tier) + jobs_union_ops(tier) + jobs_regular_getitem_jagged(tier)
     if prop == 'C05':
         return jobs_c05(tier) + [j for j in jobs_option_below(tier) if j[1][3] in ('num', 'localindex')] + jobs_flatten(tier) + jobs_axis0(tier, 'localindex') + jobs_record_below(tier, ('num', 'localindex')) + jobs_axis_through_record(tier, ('num', 'localindex')) + [(h_union_flatten, (), 1800), (h_union_flatten_mixed, (False,), 1800), (h_union_flatten_mixed, (True,), 1800)]
     if prop == 'C09':
@@ -479,7 +479,7 @@ def _jobs_for(prop, tier):
         return [j for j in jobs_option_below(tier) if j[1][3] == 'combinations'] + jobs_combinations(tier) + jobs_axis0(tier, 'combinations') + jobs_record_below(tier, ('combinations',))
     if prop == 'C03':
         return jobs_c03(tier) + jobs_option_reduce(tier) + jobs_axis(tier, ('reduce',)) + jobs_reduce_nonlocal(tier) + jobs_unmasked_passthrough(('reduce_next',)) + jobs_record_reduce(tier)
-    return {'C02': (lambda t: jobs_c02(t) + jobs_numpy_toregular(t)), 'C03': jobs_c03, 'C04': (lambda t: jobs_c04(t) + jobs_numpy_toregular(t)), 'C06': (lambda t: jobs_c06(t) + jobs_axis(t, ('sort', 'argsort')) + jobs_numpy_sort(t) + jobs_sort_nonlocal(t) + jobs_option_sort(t) + jobs_option_sort_above(t) + jobs_option_argsort(t) + jobs_string_argsort(t) + jobs_unmasked_passthrough(('sort_next', 'argsort_next'))), 'C08': (lambda t: jobs_c08(t) + jobs_numpy(t) + jobs_numpy_types(t) + jobs_union(t) + jobs_reverse_merge(t) + jobs_record_merge(t) + jobs_list_merge(t) + [j for j in jobs_record_named(t) if j[0] is h_record_mergemany_named] + jobs_merge_union(t) + jobs_union_ops(t)), 'C17': (lambda t: jobs_c17(t) + jobs_record_keys(t)), 'C12': (lambda t: jobs_numpy(t) + jobs_numpy_astype(t) + [(h_index_alloc, (), 900)] + [(h_axis0, (L_, 'combinations', n_, True), 900) for L_, n_ in ((1, 2), (2, 3), (1, 3), (0, 2))] + [j for j in jobs_numpy_getitem(t) if j[1][3] == 'array']), 'C10': (lambda t: jobs_c10(t) + [j for j in jobs_record_named(t) if j[0] is h_record_field_key] + jobs_project(t) + [j for j in jobs_option_below(t) if j[1][3] in ('getitem_field', 'getitem_fields')] + jobs_record_setitem(t)), 'C05': jobs_c05, 'C09': jobs_c09}.get(prop, lambda t: [])(tier)
+    return {'C02': (lambda t: jobs_c02(t) + jobs_numpy_toregular(t) + jobs_regular_getitem_jagged(t)), 'C03': jobs_c03, 'C04': (lambda t: jobs_c04(t) + jobs_numpy_toregular(t)), 'C06': (lambda t: jobs_c06(t) + jobs_axis(t, ('sort', 'argsort')) + jobs_numpy_sort(t) + jobs_sort_nonlocal(t) + jobs_option_sort(t) + jobs_option_sort_above(t) + jobs_option_argsort(t) + jobs_string_argsort(t) + jobs_unmasked_passthrough(('sort_next', 'argsort_next'))), 'C08': (lambda t: jobs_c08(t) + jobs_numpy(t) + jobs_numpy_types(t) + jobs_union(t) + jobs_reverse_merge(t) + jobs_record_merge(t) + jobs_list_merge(t) + [j for j in jobs_record_named(t) if j[0] is h_record_mergemany_named] + jobs_merge_union(t) + jobs_union_ops(t)), 'C17': (lambda t: jobs_c17(t) + jobs_record_keys(t)), 'C12': (lambda t: jobs_numpy(t) + jobs_numpy_astype(t) + [(h_index_alloc, (), 900)] + [(h_axis0, (L_, 'combinations', n_, True), 900) for L_, n_ in ((1, 2), (2, 3), (1, 3), (0, 2))] + [j for j in jobs_numpy_getitem(t) if j[1][3] == 'array']), 'C10': (lambda t: jobs_c10(t) + [j for j in jobs_record_named(t) if j[0] is h_record_field_key] + jobs_project(t) + [j for j in jobs_option_below(t) if j[1][3] in ('getitem_field', 'getitem_fields')] + jobs_record_setitem(t)), 'C05': jobs_c05, 'C09': jobs_c09}.get(prop, lambda t: [])(tier)
 
 
 # ------------------------------------------------------------------------------------------------ C01: getitem_next of list nodes
@@ -795,6 +795,90 @@ def h_getitem_next_array(cls, dims, nidx, stride=1):
     return mdischarge(nc.m, '%s::getitem_next(SliceArray64) shape=%s n=%d%s' % (cls, ','.join(map(str, dims)), nidx, '' if stride == 1 else ' stride=%d' % stride), obls, [('all in range', inr)] if lens and min(lens) > 0 else [],
                       replay=replay, prefer=[z3.And(v >= -6, v <= 6) for v in iv] + [nc.lencontent <= 24] + [o <= 20 for o in offs],
                       extra=dict(bounds='list lengths %s and %d index entries (case split); index values any int64; offsets origin symbolic' % (lens, nidx)))
+
+
+@guard
+def h_regular_getitem_jagged(size, length, extra):
+    """RegularArray::getitem_next(SliceJagged64) - x[:, [[..], [..]]] where x's lists have a fixed size: the content is asked with one (start,
+    stop) pair of the jagged offsets per item of every list, i.e. size * length pairs, and must itself be exactly the size * length items the
+    lists are made of - also when the content buffer is longer than that (`extra`: a RegularArray over a longer content is the same array)"""
+    nc = NodeCtx(['RA', 'LOA', 'IDX', 'CNT', 'UTL', 'KD', 'IDS', 'SLC'], [], unwind=max(10, 2 * size * length + 10))
+    fo, sz, al, fields = nc.layout_of('RA', '_ZNK7awkward12RegularArray6lengthEv')
+    assert extra < size
+    nc.m.assume(nc.lencontent == size * length + extra)
+    cells = nc.content_header('node', nc.vptr_of('N7awkward12RegularArrayE', 'RA'))
+    cells.update({fo[1]: (nc.content0, 8), fo[1] + 8: (NULL, 8), fo[2]: (BV(size), 8), fo[3]: (BV(length), 8)})
+    this = nc.m.record('node', cells, const=True)
+    tail, adv = empty_tail_and_advanced(nc)
+    # the jagged slice item: `size` lists, offsets symbolic and non-decreasing from zero
+    jo = z3.Array('joffsets', z3.BitVecSort(64), z3.BitVecSort(64))
+    offs = [z3.Select(jo, BV(j)) for j in range(size + 1)]
+    nc.m.assume(offs[0] == 0)
+    for j in range(size):
+        nc.m.assume(offs[j] <= offs[j + 1], offs[j + 1] <= 2 ** 20)
+    jdata = nc.m.array('joffsets', ('i', 64), size + 1, const=True)
+    jc = {0: (nc.vptr_of('N7awkward13SliceJaggedOfIlEE', 'SLC'), 8), 64: (NULL, 8), 72: (NULL, 8)}
+    nc.index_cells(jc, 8, jdata, BV(0), BV(size + 1))
+    jag = nc.m.record('jagged', jc, const=True)
+    seen = []
+    J = z3.Function('JAGGED', z3.BitVecSort(64), z3.BitVecSort(64))
+    kk = z3.BitVec('k!', 64)
+
+    def s_jagged(eng, fr, ins, st, name, argv):
+        sret, selfp, sstarts, sstops, item, tl = argv
+        nm, info = nc.content_info(selfp, st, eng)
+        a_, b_ = nc.index_terms(st.mem, sstarts, 'slicestarts')[0], nc.index_terms(st.mem, sstops, 'slicestops')[0]
+        seen.append(dict(pc=st.pc, info=info, starts=a_, stops=b_))
+        nc._ret(st, sret, nc.fresh_content(eng, st, BV(len(a_)), z3.Lambda([kk], J(z3.Select(info['atoms'], kk))), derived='jagged'))
+        return None
+    nc.m.eng.stubs['vf$slot%d' % nc.slot('7Content19getitem_next_jaggedERKNS_7IndexOfIlEES4_RKSt10shared_ptrINS_9SliceItemEE')] = s_jagged
+    nc.m.record('ret', {})
+    out = nc.m.call('_ZNK7awkward12RegularArray12getitem_nextERKNS_13SliceJaggedOfIlEERKNS_5SliceERKNS_7IndexOfIlEE', [Ptr('ret', 0), this, jag, tail, adv])
+    obls = [('a jagged slice with one list per item does not raise', out.raised), ('the content is asked', z3.Not(z3.Or([ob['pc'] for ob in seen] + [z3.BoolVal(False)])))]
+    for ob in seen:
+        g, info = ob['pc'], ob['info']
+        obls.append(('the content asked is exactly the size * length items of the lists (not the whole buffer)', z3.And(g, info['length'] != size * length)))
+        for k in range(size * length):
+            obls.append(('item %d of the content asked is item %d of the lists' % (k, k), z3.And(g, z3.Select(info['atoms'], BV(k)) != BV(k))))
+        if len(ob['starts']) != size * length or len(ob['stops']) != size * length:
+            obls.append(('one (start, stop) pair per item of every list', g))
+        else:
+            for i in range(length):
+                for j in range(size):
+                    obls.append(('pair of list %d item %d is the span of slice list %d' % (i, j, j), z3.And(g, z3.Or(ob['starts'][i * size + j] != offs[j], ob['stops'][i * size + j] != offs[j + 1]))))
+    for g, res in nodeh.decode_cases(nc, out.mem, nc.m.cell('ret', 0)):
+        g = z3.And(g, z3.Not(out.raised))
+        if res is None:
+            obls.append(('a result is returned', g))
+        elif res['cls'] != 'regular':
+            obls.append(('the result has lists of fixed size again', g))
+        else:
+            obls.append(('the result has %d lists of size %d' % (length, size), z3.And(g, z3.Or(res['size'] != size, res['length'] != length))))
+            ln, el = opaque_seq(res['content'])
+            obls.append(('the result holds one answer per item', z3.And(g, ln != size * length)))
+            for k in range(size * length):
+                obls.append(('answer %d is what the content answered for item %d' % (k, k), z3.And(g, el(BV(k)) != J(BV(k)))))
+
+    def replay(model, ent):
+        ov = [model.eval(x, model_completion=True).as_signed_long() for x in offs]
+        if ov[-1] > 40:
+            return False, 'slice too long to replay', {}
+        # items are lists [10k, 10k+1, 10k+2]; every slice list takes element 0 (as often as its span asks)
+        n = size * length + extra
+        prog = 'i64 %s listoffset64 %s regular %d %d getitem 2 range NONE NONE NONE jagged %s array %s' % (
+            fullnative.ints([10 * (k // 3) + k % 3 for k in range(3 * n)]), fullnative.ints([3 * k for k in range(n + 1)]), size, length if size == 0 else 0,
+            fullnative.ints(ov), fullnative.ints([0] * ov[-1]))
+        exp = [[[10 * (i * size + j)] * (ov[j + 1] - ov[j]) for j in range(size)] for i in range(length)]
+        return akrun_check(prog, exp, 'RegularArray of %d lists of size %d over a content of %d items, [:, jagged %s]' % (length, size, n, ov))
+    return mdischarge(nc.m, 'RegularArray::getitem_next(SliceJagged64) size=%d length=%d content longer by %d' % (size, length, extra), obls, [], replay=replay,
+                      prefer=[o <= 4 for o in offs], extra=dict(bounds='size, length and surplus content concrete (case split); jagged offsets symbolic'))
+
+
+def jobs_regular_getitem_jagged(tier):
+    q = [(2, 2, 0), (2, 2, 1), (3, 1, 2)]          # the surplus is always shorter than one more list (the constructor's length = len(content) // size)
+    if tier != 'quick':
+        q += [(2, 1, 1), (1, 1, 0), (3, 2, 2), (3, 2, 1), (2, 3, 1)]
+    return [(h_regular_getitem_jagged, a, 1800) for a in q]
 
 
 def jobs_c01(tier):
